@@ -419,17 +419,24 @@ func main() {
 		// is the error of the `switch network` checked before the protocol is recorded?
 		checked := false
 		ast.Inspect(start, func(n ast.Node) bool {
-			bs, ok := n.(*ast.BlockStmt)
-			if !ok {
+			var list []ast.Stmt
+			switch x := n.(type) {
+			case *ast.BlockStmt:
+				list = x.List
+			case *ast.CaseClause:
+				list = x.Body
+			case *ast.CommClause:
+				list = x.Body
+			default:
 				return true
 			}
-			for i, st := range bs.List {
+			for i, st := range list {
 				sw, ok := st.(*ast.SwitchStmt)
 				if !ok || sw.Tag == nil || exprString(sw.Tag) != "network" {
 					continue
 				}
-				if i+1 < len(bs.List) {
-					if is, ok := bs.List[i+1].(*ast.IfStmt); ok && exprString(is.Cond) == "(err!=nil)" {
+				if i+1 < len(list) {
+					if is, ok := list[i+1].(*ast.IfStmt); ok && exprString(is.Cond) == "(err!=nil)" {
 						checked = true
 					}
 				}
